@@ -240,3 +240,146 @@ def apply_string_level(url, name, draw):
             url = url[:pos] + draw(st.sampled_from(CONTROL_CHARS)) + url[pos:]
         return url
     raise KeyError(name)
+
+
+# ---------------------------------------------------------------------------
+# documented-irrelevant family (C04, C03, C06)
+# ---------------------------------------------------------------------------
+from vlib import lists as _L  # noqa: E402
+
+TRACKING_POOL = [["utm_source", "tw"], ["utm_campaign", "x y"], ["UTM_MEDIUM", "a"], ["utm_term", ""], ["fbclid", "IwAR0"], ["gclid", "1"], ["mc_cid", "2"],
+                 ["mc_eid", "3"], ["phpsessionid", "abc"], ["jsessionid", "A1"], ["aspsessionid", "A2"], ["sessionid", "9"], ["_ga", "2.1"], ["igshid", "x"],
+                 ["ref", "fb"], ["ref", "twitter"], ["ref", "bookmarks"], ["source", "twitter"], ["m", "1"], ["m", "0"], ["s", "09"], ["s", "7"],
+                 ["mtm_kwd", "k"], ["at_medium", "c"], ["xtor", "AD-1"], ["xtref", "r"], ["echobox", None], ["feature", "share"],
+                 ["__twitter_impression", "true"], ["spref", "tw"], ["platform", "hootsuite"], ["sid", "1"], ["mkt_tok", "e"], ["twclid", "2"],
+                 ["_guc_consent_skip", "1"], ["guccounter", "1"], ["fb_action_ids", "1"], ["fb_action_types", "og"], ["fb_source", "x"], ["recruiter", "1"],
+                 ["_unique_id", "5"], ["mibextid", "Z"], ["campaignid", "1"], ["adgroupid", "2"], ["cn-reloaded", "1"], ["ao_noptimize", "1"],
+                 ["refid", "9"], ["__tn__", "R"], ["_ft_", "q"], ["dclid", "1"], ["wpamp", None], ["fref", "nf"], ["usqp", "mq"], ["ncid", "x"],
+                 ["een", "a"], ["seen", "b"], ["cftoken", "1"], ["cfid", "2"], ["xtloc", "1"], ["xtcr", "1"], ["xtnp", "1"], ["xts", "1"],
+                 ["fromref", "twitter"], ["sns", "tw"], ["_ss", "r"], ["marfeeltn", "amp"], ["mode", "amp"], ["output", "amp"],
+                 ["amp", None], ["amp", "1"], ["amp_js_v", "0.1"], ["outputtype", "amp"]]
+PER_DOMAIN_POOL = {"facebook.com": [["_rdc", "1"], ["_rdr", None]], "youtube.com": [["t", "10s"], ["si", "abc"], ["cbrd", "1"], ["ucbcb", "1"], ["ab_channel", "X"]]}
+
+
+def i_scheme(s, draw):
+    s = copy.deepcopy(s)
+    form = draw(st.sampled_from(["explicit", "explicit", "absent", "slashes"]))
+    s["scheme_form"] = form
+    s["scheme"] = draw(st.sampled_from(["http", "https", "HTTPS", "Http"])) if form == "explicit" else None
+    if s.get("port") in ("80", "443"):
+        s["port"] = None
+    return s
+
+
+def i_userinfo(s, draw):
+    s = copy.deepcopy(s)
+    if s.get("user") is None:
+        s["user"] = draw(st.sampled_from(["user", "User.Name", "u%40x"]))
+        s["password"] = draw(st.sampled_from([None, "pw", "P%3Aw", ""]))
+    else:
+        s["user"] = s["password"] = None
+    return s
+
+
+def i_subdomain(s, draw):
+    s = copy.deepcopy(s)
+    n = draw(st.integers(1, 2))
+    labs = draw(st.lists(st.sampled_from(["www", "www2", "www7", "m", "mobile", "amp", "WWW", "M"]), min_size=n, max_size=n, unique=True))
+    s["host"] = ".".join(labs + [s["host"]])
+    return s
+
+
+def i_amp_host_prefix(s, draw):
+    first = s["host"].split(".")[0].lower()
+    if first.startswith("amp-") or not first.isascii() or first.startswith("xn--") or _L.is_irrelevant_label(first):
+        return None  # 'amp-' is glued onto the site's own first label, never onto www / m / an IDN label
+    s = copy.deepcopy(s)
+    s["host"] = draw(st.sampled_from(["amp-", "AMP-"])) + s["host"]
+    return s
+
+
+def i_default_port(s, draw):
+    if s.get("port") not in (None, ""):
+        return None
+    s = copy.deepcopy(s)
+    scheme = (s["scheme"] or "http").lower()
+    s["port"] = "443" if scheme == "https" else "80"
+    return s
+
+
+def i_host_case(s, draw):
+    return t_host_case(s, draw)
+
+
+def i_trailing_slash(s, draw):
+    s = copy.deepcopy(s)
+    s["trailing_slash"] = not s["trailing_slash"]
+    return s
+
+
+def i_index_page(s, draw):
+    if s["segments"] and (_L.is_index_segment(s["segments"][-1].lower()) or s["segments"][-1].lower().startswith("amp")):
+        return None
+    s = copy.deepcopy(s)
+    s["segments"] = s["segments"] + [draw(st.sampled_from(["index.html", "index.php", "index", "default.asp", "default.aspx", "index.htm", "default"]))]
+    s["trailing_slash"] = False
+    return s
+
+
+def i_plain_fragment(s, draw):
+    if s.get("fragment") not in (None, ""):
+        return None
+    s = copy.deepcopy(s)
+    s["fragment"] = draw(st.sampled_from(["section", "top", "", "a-b", "comments", "x y", "%41", "a/b", "é"]))
+    return s
+
+
+def i_tracking_items(s, draw):
+    s = copy.deepcopy(s)
+    items = list(s.get("query") or [])
+    pool = list(TRACKING_POOL)
+    for d, extra in PER_DOMAIN_POOL.items():
+        if s["host"].lower().endswith(d):
+            pool += extra
+    for _ in range(draw(st.integers(1, 3))):
+        it = list(draw(st.sampled_from(pool)))
+        if draw(st.integers(0, 3)) == 0:
+            it[0] = it[0].upper() if draw(st.booleans()) else it[0].capitalize()
+        items.insert(draw(st.integers(0, len(items))), it)
+    s["query"] = items
+    return s
+
+
+def i_permute_query(s, draw):
+    items = s.get("query") or []
+    if len(items) < 2:
+        return None
+    s = copy.deepcopy(s)
+    s["query"] = draw(st.permutations(items))
+    return s
+
+
+IRRELEVANT = {
+    "scheme": i_scheme, "userinfo": i_userinfo, "subdomain": i_subdomain, "amp-host-prefix": i_amp_host_prefix, "default-port": i_default_port,
+    "host-case": i_host_case, "trailing-slash": i_trailing_slash, "index-page": i_index_page, "plain-fragment": i_plain_fragment,
+    "tracking-items": i_tracking_items, "permute-query": i_permute_query,
+    # escape spelling
+    "hex-case": t_hex_case, "escape-raw": t_escape_raw, "unescape-safe": t_unescape_safe, "punycode": t_punycode,
+    "dot-segments": t_dot_segments, "empty-query-fragment": t_empty_query_fragment,
+}
+STRING_LEVEL_IRRELEVANT = ["whitespace", "control-chars", "amp-entity"]
+
+
+def apply_string_level_irrelevant(url, name, draw):
+    if name == "amp-entity":
+        if "?" not in url:
+            return url
+        head, _, rest = url.partition("?")
+        q, h, frag = rest.partition("#")
+        ent = draw(st.sampled_from(["&amp;", "&AMP;", "&amp%3B", "&amp%3b"]))
+        parts = q.split("&")
+        out = parts[0]
+        for p in parts[1:]:
+            out += (ent if draw(st.booleans()) else "&") + p
+        return head + "?" + out + h + frag
+    return apply_string_level(url, name, draw)
